@@ -200,6 +200,33 @@ impl Check for C06Noise {
                 return fail(format!("the malformed region in gap {} is not reported: {} error lines with it, {} without it", g, count(&n), count(&n2)));
             }
         }
+        // reports are not lost when --take ends the run early: with --take = number of values every
+        // region in front of the last value has been read, so it is reported as in the run without
+        // the limit (policy stderr, no stage between reader and printer)
+        let mut take_probe = false;
+        if case.policy == 2 && case.pipeline == 0 && !case.only_objects && !case.values.is_empty() && n.res.is_ok() && !noisy_gaps.is_empty() {
+            let mut front = case.noise.clone();
+            if let Some(last) = front.last_mut() {
+                last.clear();
+            }
+            let (_, noisy3) = build_inputs(&case.values, &front);
+            let n3 = run(&args, &noisy3);
+            let rows = lines(&base.stdout).len();
+            if n3.res.is_ok() && rows >= 1 {
+                let mut a = args.clone();
+                a.push(format!("--take={}", rows));
+                let t = run(&a, &noisy);
+                let count = |o: &Outcome| lines(&o.stderr).iter().filter(|l| l.starts_with(b"error:")).count();
+                if !t.res.is_ok() || t.stdout != base.stdout {
+                    return fail(format!("--take={} (all {} rows) changes the rows: {} {}", rows, rows, t.res.short(), esc_trunc(&t.stdout, 200)));
+                }
+                if count(&t) < count(&n3) {
+                    return fail(format!("--take={} loses reports: {} error lines, but the regions in front of the last value give {} without the limit", rows, count(&t), count(&n3)));
+                }
+                take_probe = count(&n3) > 0;
+            }
+        }
+        let info = info.class_if(take_probe, "reports_kept_when_take_ends_the_run");
         match case.policy {
             0 => {
                 if !n.res.is_ok() || n.stdout != base.stdout || !n.stderr.is_empty() {
